@@ -578,6 +578,37 @@ func checkC10(c *hx.Ctx) {
 						}
 					}
 				}
+				// names of the signature algorithm and of the curve in another letter case (only the exact registered names are enabled):
+				// everything else consistent - reveal value recomputed over the key as written, payload re-signed
+				{
+					keyName := "updateKey"
+					if v.typ != "update" {
+						keyName = "recoveryKey"
+					}
+					if jwk, ok := payload[keyName].(map[string]interface{}); ok {
+						for ci2, spell := range []func(string) string{strings.ToLower, strings.ToUpper, swapCase} {
+							crv, _ := jwk["crv"].(string)
+							if spell(crv) != crv {
+								pl := ref.CopyTree(payload).(map[string]interface{})
+								pl[keyName].(map[string]interface{})["crv"] = spell(crv)
+								t := ref.CopyTree(v.req).(map[string]interface{})
+								t["signedData"] = ref.CompactJWS(v.key, v.key.Header(""), ref.MustJCS(pl))
+								t["revealValue"] = ref.EncMultihash(cb.code, ref.MustJCS(pl[keyName]))
+								if !aip("Parse", base, ref.MustJCS(t), fmt.Sprintf("curve-name-letter-case:%s:%d", v.typ, ci2)) {
+									return
+								}
+							}
+							alg := v.key.Alg()
+							if spell(alg) != alg {
+								t := ref.CopyTree(v.req).(map[string]interface{})
+								t["signedData"] = ref.CompactJWS(v.key, map[string]interface{}{"alg": spell(alg)}, ref.MustJCS(payload))
+								if !aip("Parse", base, ref.MustJCS(t), fmt.Sprintf("algorithm-name-letter-case:%s:%d", v.typ, ci2)) {
+									return
+								}
+							}
+						}
+					}
+				}
 				// members that belong to the request duplicated INSIDE the signed payload with the right value, while the request's
 				// own member carries another request's (well-formed) value: the request's own members are what counts
 				for _, name := range []string{"revealValue", "didSuffix", "type", "delta"} {
@@ -1079,4 +1110,17 @@ func scramble(r *hx.Rng, v interface{}) interface{} {
 		return a
 	}
 	return v
+}
+
+func swapCase(s string) string {
+	b := []byte(s)
+	for i, ch := range b {
+		switch {
+		case ch >= 'a' && ch <= 'z':
+			b[i] = ch - 32
+		case ch >= 'A' && ch <= 'Z':
+			b[i] = ch + 32
+		}
+	}
+	return string(b)
 }
